@@ -78,8 +78,12 @@ def walk (env : Env) (cfg : WalkCfg) (st : WalkSt) : M (Lookup Fd × SStack) :=
   match hrem : st.rem with
   | [] =>
     M.bind' ((checkCurrent env st.cur cfg.root st.expected).onErr (Sys.closeAll (owned cfg st))) fun _ =>
-    M.bind' (M.lift (releaseMany [cfg.root] (st.cur :: st.stack.dirs))) fun _ =>
-    pure (.complete st.cur, st.stack)
+    -- at the root itself: return a fresh O_PATH handle, not the duplicate of the caller's descriptor
+    M.bind' (if st.cur = cfg.root then
+        (Sys.openat cfg.root Path.dot (O_PATH ||| O_NOFOLLOW) 0).onErr (Sys.closeAll (owned cfg st))
+      else pure st.cur) fun res =>
+    M.bind' (M.lift (releaseMany [cfg.root] (res :: st.stack.dirs))) fun _ =>
+    pure (.complete res, st.stack)
   | part0 :: rest =>
     let remaining := Path.joinSlash (part0 :: rest)
     if hroot : part0 = Path.dotdot ∧ st.expected = [] then
